@@ -72,13 +72,13 @@ def check_hist(case, iout, ires, spec_text, want=("answers", "output", "exhauste
             # a panic is a violation only where the reference search of that query is defined and finishes
             try:
                 q = int(op[1]); cur = sp.get(q, [])
-                s0 = cur[builds.get(q, 0) + (1 if name == "build" else 0)] if name == "build" else cur[builds[q]]
+                s0 = cur[builds.get(q, 0) + (1 if name in ("build", "build-text") else 0)] if name in ("build", "build-text") else cur[builds[q]]
                 if s0[0] == "trace": yield ("answers", "operation %s panicked although the reference search finishes" % sx_text(op), {})
             except Exception:
                 pass
             return
         if o == "fuel": return
-        if name == "build":
+        if name in ("build", "build-text"):
             q = int(op[1]); builds[q] = builds.get(q, -1) + 1; pos[q] = 0; done[q] = False
             continue
         if name not in ("ask", "solve", "solve-all"): continue
